@@ -169,6 +169,109 @@ def interpret_case(case, res=None, flips=False):
                      classes=['interpret'] + ['kw:' + w_ for w_ in sd])
 
 
+# -- (4) callables ------------------------------------------------------------------------------------------------------
+
+def _norm(v):
+    if isinstance(v, (list, tuple, set, frozenset)) or type(v).__name__ in ('QuerySet', 'OrderedSet'):
+        return ['set'] + [_norm(x) for x in v]
+    if hasattr(v, '__metaclass__') or type(v).__module__.startswith('xtuml') and hasattr(v, '__dict__') and not isinstance(v, type):
+        try:
+            return ['inst', xtuml.get_metaclass(v).kind, getattr(v, 'Id', None)]
+        except Exception:
+            return ['obj', type(v).__name__]
+    return v if isinstance(v, (int, float, str, bool, type(None))) else repr(v)
+
+
+def _snapshot(domain):
+    out = {}
+    for c in oalprog.SCHEMA['classes']:
+        rows = []
+        for i in domain.select_many(c['name']):
+            rows.append([_norm(getattr(i, a)) for a, _t in c['attrs']])
+        out[c['name']] = rows
+    return out
+
+
+class _Slow(Exception):
+    pass
+
+
+def callables_run(case, kwcase, budget=4):
+    from . import c15_callables
+    c = dict(case, kwcase=kwcase)
+    callables, features, domain, _text = c15_callables.build(c)
+    c15_callables.populate(domain, case['pop'])
+    trace = []
+    k = 0
+    for cb in callables:
+        args = {}
+        for pn, pt in cb.params:
+            args[pn] = c15_callables.arg_value(pt, case['args'][k % len(case['args'])])
+            k += 1
+        recv = None
+        if cb.kind in ('instop', 'derived'):
+            insts = list(domain.select_many(cb.cls))
+            if not insts:
+                continue
+            recv = insts[case['args'][k % len(case['args'])] % len(insts)]
+            k += 1
+        try:
+            with TimeLimit(budget):
+                if cb.kind == 'function':
+                    got = domain.find_symbol(cb.name)(**args)
+                elif cb.kind == 'bridge':
+                    got = getattr(domain.find_symbol('MYEE'), cb.name)(**args)
+                elif cb.kind == 'classop':
+                    got = getattr(domain.find_class(cb.cls), cb.name)(**args)
+                elif cb.kind == 'instop':
+                    got = getattr(recv, cb.name)(**args)
+                else:
+                    got = getattr(recv, cb.name)
+            out = ['returned', _norm(got)]
+        except TimeLimit.Expired:
+            raise _Slow()
+        except RecursionError:
+            out = ['raised', 'RecursionError']
+        except Exception as e:
+            out = ['raised', type(e).__name__]
+        trace.append({'callable': cb.kind + ':' + cb.name, 'outcome': out, 'population': _snapshot(domain), 'text': cb.text})
+    return trace, features
+
+
+def callables_case(case, res=None):
+    try:
+        t0, features = callables_run(case, [0])
+    except _Slow:
+        # generated call graphs are not bounded (C15 bounds them by the fuel of its reference evaluator): not a case
+        if res is not None:
+            res.discarded['lower-case run of the call graph exceeds 4 s'] += 1
+        return
+    for variant in (case['kwcase'], [1]):
+        _compare_variant(case, t0, variant)
+    if res is not None:
+        up = any(case['kwcase'])
+        res.case(['callables', case['tape'], case['kwcase'], case['args']], bool('call-in-expression' in features and len(t0) >= 3),
+                 classes=['callables'] + (['callables-recased'] if up else []))
+
+
+def _compare_variant(case, t0, variant):
+    try:
+        t1, _f = callables_run(case, variant, budget=40)
+    except _Slow:
+        raise Violation('recased-callable-does-not-terminate', dict(case, variant=variant),
+                        'lower-case run finished within 4 s, re-cased run not within 40 s per call')
+    for a, b in zip(t0, t1):
+        info = dict(case, lower=a['text'], cased=b['text'], variant=variant)
+        if a['outcome'] != b['outcome']:
+            raise Violation('recased-callable-outcome:' + a['callable'].split(':')[0], info,
+                            '%s: lower-case %r, re-cased %r\n%s' % (a['callable'], a['outcome'], b['outcome'], b['text']))
+        if a['population'] != b['population']:
+            diff = [k for k in a['population'] if a['population'][k] != b['population'][k]]
+            raise Violation('recased-callable-population:' + a['callable'].split(':')[0], info,
+                            '%s: population of %r differs after the call: lower-case %r, re-cased %r\n%s' % (
+                                a['callable'], diff, [a['population'][k] for k in diff][:2], [b['population'][k] for k in diff][:2], b['text']))
+
+
 def selftest():
     a = oal.parse('select many xs from instances of A; x = not true or false;')
     b = oal.parse('SELECT MANY xs FROM INSTANCES OF A; x = NOT TRUE OR FALSE;')
@@ -201,6 +304,12 @@ def run(ctx):
         hyp_run(ctx, res, prog, wrap(interpret_case, flips=True), 150, label='interpret_flips')
     from . import c08_prebuild
     c08_prebuild.run_part(ctx, res)
+    # (4) callables of a component (functions, bridges, operations, derived attributes calling each other): the same
+    # component with lower-case and with re-cased keywords, same invocations, results and populations compared after
+    # every call (differential - also where the language leaves the number of operand evaluations open)
+    from . import c15_callables
+    hyp_run(ctx, res, c15_callables.cases(kwcase=st.lists(st.integers(0, 3), min_size=1, max_size=7)), wrap(callables_case),
+            ctx.pick(40, 400), label='callables')
     return res
 
 
